@@ -8,7 +8,7 @@ def run(ctx):
                   "through the predicate that looks up that very suppressed set, and the summary is emitted before "
                   "any section and is not gated by --stat; the counters of filtered-out changes are computed only after every "
                   "category-writing pass has run")
-    ctx.rules = ["R-NETPAIR", "R-SECTION", "R-STATFIRST", "R-CHGKIND/b", "R-CATORDER", "R-OPTGATE", "R-SORTALL"]
+    ctx.rules = ["R-NETPAIR", "R-SECTION", "R-STATFIRST", "R-CHGKIND/b", "R-APPLYALL", "R-CATORDER", "R-OPTGATE", "R-SORTALL"]
     P = ctx.program(at.UNITS)
     sa.check_netpair(ctx, P)
     sa.check_section(ctx, P)
